@@ -405,7 +405,34 @@ def run_shard(ctx):
     screened = 0
     for k, (rc, data, log) in enumerate(pres):
         if data is None:
-            ctx.starved("prescreen child %d failed (rc=%s): %s" % (k, rc, log[-300:]))
+            # the child had to be killed (or died): which call was it in?  Repeat that ONE call under a hard CPU limit
+            # enforced by the kernel (a call stuck in C code that polls no signals cannot be interrupted from inside)
+            confirmed = False
+            try:
+                with open(os.path.join(scratch, "pre%d.out.json.progress" % k)) as f:
+                    fid, n_at = [int(x) for x in f.read().split()[:2]]
+                fam = families[fid]
+                sp = os.path.join(scratch, "confirm%d.spec.json" % k)
+                with open(sp, "w") as f:
+                    json.dump({"repo": repo, "family": fam, "n": n_at, "cpu_s": 60}, f)
+                o = os.path.join(scratch, "confirm%d.out.json" % k)
+                (rc2, data2, log2), = run_children([([py, "-m", "rv.cgworker", "confirm", sp, o], env, o)], 1, 600)
+                from rv import cgworker as _cg
+                s_in = _cg.family_input(fam, n_at)
+                ctx.monitor("stall", fired=data2 is None and rc2 in (-24, -9))
+                if data2 is None and rc2 in (-24, -9) and len(s_in) <= 80:
+                    confirmed = True
+                    ctx.violation("stall", "no short input (a few dozen characters) can stall a caller",
+                                  {"target": fam["target"], "input": s_in, "prefix": fam["prefix"], "pump": fam.get("pump"),
+                                   "blocks": fam.get("blocks"), "suffix": fam["suffix"], "n": n_at},
+                                  observed="the call was still running after 60 CPU seconds (process killed by the kernel's CPU limit); "
+                                           "it could not be interrupted from inside, the screening process had to be killed",
+                                  expected="microseconds", key=classify(fam))
+                elif data2 is not None:
+                    ctx.note("killed_prescreen_child_last_call_cpu_s", data2.get("cpu_s"))
+            except Exception as e:
+                ctx.note("confirm_failed", "%s: %s" % (type(e).__name__, e))
+            ctx.starved("prescreen child %d failed (rc=%s)%s: %s" % (k, rc, " - stalled call confirmed" if confirmed else "", log[-300:]))
             continue
         screened += data["screened"]
         if data["screened"] < data["of"]:
@@ -533,9 +560,28 @@ def replay(ctx, case):
             ctx.violation("data-built-pattern-stall", "no short input can stall a caller", case, observed="load needed more than 4 CPU seconds",
                           expected="milliseconds")
         return
-    fam = {"id": 0, "target": case["target"], "prefix": case["prefix"], "pump": case.get("pump") or "", "suffix": case["suffix"]}
+    fam = {"id": 0, "target": case["target"], "prefix": case.get("prefix", ""), "pump": case.get("pump") or "", "suffix": case.get("suffix", "")}
     if case.get("structure"):
         fam["structure"] = case["structure"]
+    if case.get("blocks"):
+        fam["blocks"] = case["blocks"]
+    if "n" in case and "points" not in case:
+        # a stalled call: repeat it under the kernel's CPU limit
+        env0 = dict(os.environ)
+        env0["PYTHONPATH"] = HERE
+        env0["PYTHONHASHSEED"] = "0"
+        sp0 = os.path.join(ctx.scratch, "confirm.spec.json")
+        with open(sp0, "w") as f:
+            json.dump({"repo": ctx.repo, "family": fam, "n": case["n"], "cpu_s": 60}, f)
+        o0 = os.path.join(ctx.scratch, "confirm.out.json")
+        (rc0, data0, log0), = run_children([([sys.executable, "-m", "rv.cgworker", "confirm", sp0, o0], env0, o0)], 1, 600)
+        stalled = data0 is None and rc0 in (-24, -9)
+        ctx.monitor("stall", fired=stalled)
+        ctx.case_done(case_sig(fam))
+        if stalled:
+            ctx.violation("stall", "no short input (a few dozen characters) can stall a caller", case,
+                          observed="still running after 60 CPU seconds", expected="microseconds")
+        return
     if case.get("blocks"):
         fam["blocks"] = case["blocks"]
     scratch = ctx.scratch
